@@ -1,41 +1,92 @@
-//@ assume: Pool / PoolEntry / Transaction are abstract; bucket_transactions(weighting) is the uninterpreted list sp_bucketed(pool, weighting) -- ordered so that a transaction comes after everything it depends on AMONG THE BUCKETED ones, and dropping every transaction whose aggregate with its parent fails validation under `weighting` (bucket_transactions itself, HashMap / HashSet driven, is NOT under contract); `entries.retain(f)` => abstract list whose retain keeps exactly the elements satisfying f, f being the REAL closure text, verified as a lifted function (T7)
-//@ assume: decided here (C14, 'after ... evictions ... every input exists in the unspent set or is created by another pool transaction'), as far as a contract on this function reaches: Pool::evict_transaction asks bucket_transactions for the WHOLE pool (Weighting::NoLimit -- any weight limit drops over-weight descendants from the list, and their parent then looks like a leaf) and removes exactly the entries whose transaction equals the LAST one of that list, nothing else; an empty list removes nothing. NOT decided: that the last bucketed transaction has no dependant in the pool -- on the pinned tree a transaction with two parents in the pool is not bucketed at all (DESIGN 8b, observation (i))
-//@ assumed_items: 3
-//@ fns: Pool::evict_transaction, 1 closure in Pool::evict_transaction
+//@ assume: Transaction is abstract with uninterpreted input / output commitment lists (sp_ins, sp_outs); bucket_transactions(weighting) is the uninterpreted list sp_bucketed(entries, weighting) -- NOTHING is assumed about its order or about which pool transactions it contains (on the pinned tree it does not preserve dependency order: finding F13); `X.into_iter().rev().find(p)` => abstract TxList / TxIter stand-ins: find returns an element satisfying p, or None when none does; `entries.retain(f)` => retain_entries, keeps exactly the elements satisfying f; both closures are replaced by predicate objects here (T6, by their text) and are verified verbatim as lifted functions in C14/pool_evict_closures
+//@ assume: T6 in has_dependent_tx: `for x in &vec` / `for x in slice` => the verifier's `for x in it: .iter()` form; `let inputs: Vec<_> = entry.tx.inputs().into()` => inputs_of(&entry.tx)
+//@ assume: decided here (C14, 'after any sequence of ... evictions ... every input exists in the unspent set or is created by another pool transaction'), for ANY pool contents and ANY bucket list: Pool::evict_transaction either leaves the pool as it is or removes exactly the entries holding ONE transaction t such that no OTHER pool entry spends an output of t -- so an eviction never takes away an output that a remaining pool transaction spends; Pool::has_dependent_tx(tx) is true iff some other entry has an input whose commitment equals the commitment of one of tx's outputs (three nested loops, early return)
+//@ assumed_items: 8
+//@ fns: Pool::evict_transaction, Pool::has_dependent_tx
+#[derive(Clone, Copy, PartialEq, Eq, Structural)]
+pub struct Commitment { pub c: u64 }
+#[derive(Clone, Copy, PartialEq, Eq, Structural)]
+pub struct CommitWrapper { pub commit: Commitment }
+impl CommitWrapper { pub fn commitment(&self) -> (r: Commitment) ensures r == self.commit { self.commit } }
+#[derive(Clone, Copy, PartialEq, Eq, Structural)]
+pub struct Output { pub commit: Commitment }
+impl Output { pub fn commitment(&self) -> (r: Commitment) ensures r == self.commit { self.commit } }
 #[derive(Clone, Copy, PartialEq, Eq, Structural)]
 pub struct Transaction { pub id: u64 }
+pub uninterp spec fn sp_ins(t: Transaction) -> Seq<CommitWrapper>;
+pub uninterp spec fn sp_outs(t: Transaction) -> Seq<Output>;
+impl Transaction {
+    #[verifier::external_body]
+    pub fn outputs(&self) -> (r: &[Output]) ensures r@ == sp_outs(*self) { unimplemented!() }
+}
+#[verifier::external_body]
+fn inputs_of(t: &Transaction) -> (r: Vec<CommitWrapper>) ensures r@ == sp_ins(*t) { unimplemented!() }
 #[derive(Clone, Copy, PartialEq, Eq, Structural)]
 pub struct PoolEntry { pub tx: Transaction, pub src: u8 }
 #[derive(Clone, Copy, PartialEq, Eq, Structural)]
 pub enum Weighting { AsTransaction, AsLimitedTransaction(u64), AsBlock, NoLimit }
+/// a spends an output of b
+pub open spec fn spends(a: Transaction, b: Transaction) -> bool {
+    exists|i: int, j: int| 0 <= i < sp_ins(a).len() && 0 <= j < sp_outs(b).len() && #[trigger] sp_ins(a)[i].commit == #[trigger] sp_outs(b)[j].commit
+}
+/// some OTHER pool entry spends an output of t
+pub open spec fn has_dep(entries: Seq<PoolEntry>, t: Transaction) -> bool {
+    exists|k: int| 0 <= k < entries.len() && (#[trigger] entries[k]).tx != t && spends(entries[k].tx, t)
+}
 pub uninterp spec fn sp_bucketed(entries: Seq<PoolEntry>, w: Weighting) -> Seq<Transaction>;
 pub struct TxList { pub items: Ghost<Seq<Transaction>> }
+pub struct TxIter { pub items: Ghost<Seq<Transaction>> }
+pub struct NoDep<'a> { pub pool: &'a Pool }
+pub struct NotTx<'a> { pub t: &'a Transaction }
 impl TxList {
     #[verifier::external_body]
     pub fn last(&self) -> (r: Option<&Transaction>) ensures self.items@.len() == 0 ==> r.is_none(), self.items@.len() > 0 ==> r == Some(&self.items@.last()) { unimplemented!() }
-}
-pub struct NotTx<'a> { pub t: &'a Transaction }
-pub struct Entries { pub items: Ghost<Seq<PoolEntry>> }
-impl Entries {
-    /// Vec::retain with the closure `|x| x.tx != *t`
     #[verifier::external_body]
-    pub fn retain(&mut self, f: NotTx) ensures final(self).items@ == old(self).items@.filter(|e: PoolEntry| e.tx != *f.t) { unimplemented!() }
+    pub fn into_iter(self) -> (r: TxIter) ensures r.items@ == self.items@ { unimplemented!() }
 }
-pub struct Pool { pub entries: Entries }
+impl TxIter {
+    #[verifier::external_body]
+    pub fn rev(self) -> (r: TxIter) ensures r.items@ == self.items@.reverse() { unimplemented!() }
+    /// Iterator::find with the predicate `|tx| !self.has_dependent_tx(tx)`
+    #[verifier::external_body]
+    pub fn find(self, p: NoDep) -> (r: Option<Transaction>)
+        ensures r matches Some(t) ==> self.items@.contains(t) && !has_dep(p.pool.entries@, t),
+                r.is_none() ==> forall|i: int| 0 <= i < self.items@.len() ==> has_dep(p.pool.entries@, #[trigger] self.items@[i]) { unimplemented!() }
+}
+/// Vec::retain with the predicate `|x| x.tx != t`
+#[verifier::external_body]
+fn retain_entries(v: &mut Vec<PoolEntry>, f: NotTx) ensures final(v)@ == old(v)@.filter(|e: PoolEntry| e.tx != *f.t) { unimplemented!() }
+pub struct Pool { pub entries: Vec<PoolEntry> }
 impl Pool {
     #[verifier::external_body]
-    fn bucket_transactions(&self, weighting: Weighting) -> (r: TxList) ensures r.items@ == sp_bucketed(self.entries.items@, weighting) { unimplemented!() }
+    fn bucket_transactions(&self, weighting: Weighting) -> (r: TxList) ensures r.items@ == sp_bucketed(self.entries@, weighting) { unimplemented!() }
 //@ extract pool/src/pool.rs :: impl Pool::evict_transaction
-//@   eclosure 1 replaced_by `NotTx { t: evictable_transaction }`
+//@   rewrite `|tx| !self.has_dependent_tx(tx)` => `NoDep { pool: &*self }` x?
+//@   rewrite `self.entries.retain(|x| x.tx != evictable_transaction);` => `retain_entries(&mut self.entries, NotTx { t: &evictable_transaction });` x?
+//@   rewrite `self.entries.retain(|x| x.tx != *evictable_transaction);` => `retain_entries(&mut self.entries, NotTx { t: evictable_transaction });` x?
 //@   ensures:
-//@+    ({ let b = sp_bucketed(old(self).entries.items@, Weighting::NoLimit);
-//@+       if b.len() == 0 { final(self).entries.items@ == old(self).entries.items@ }
-//@+       else { final(self).entries.items@ == old(self).entries.items@.filter(|e: PoolEntry| e.tx != b.last()) } }),
+//@+    final(self).entries@ == old(self).entries@
+//@+        || exists|t: Transaction| final(self).entries@ == old(self).entries@.filter(|e: PoolEntry| e.tx != t) && !has_dep(old(self).entries@, t),
+//@ end
+//@ extract? pool/src/pool.rs :: impl Pool::has_dependent_tx
+//@   rewrite `for entry in &self.entries {` => `for entry in it1: self.entries.iter() {`
+//@   rewrite `let inputs: Vec<_> = entry.tx.inputs().into();` => `let inputs: Vec<CommitWrapper> = inputs_of(&entry.tx);`
+//@   rewrite `for input in inputs {` => `for input in it2: inputs.iter() {`
+//@   rewrite `for output in tx.outputs() {` => `for output in it3: tx.outputs().iter() {`
+//@   ensures:
+//@+    r == has_dep(self.entries@, *tx),
+//@   loop 1:
+//@+    invariant
+//@+        forall|k: int| 0 <= k < it1.index@ ==> (#[trigger] self.entries@[k]).tx == *tx || !spends(self.entries@[k].tx, *tx),
+//@   loop 2:
+//@+    invariant
+//@+        inputs@ == sp_ins(entry.tx), entry.tx != *tx, *entry == self.entries@[it1.index@ as int], 0 <= it1.index@ < self.entries@.len(),
+//@+        forall|i: int, j: int| 0 <= i < it2.index@ && 0 <= j < sp_outs(*tx).len() ==> #[trigger] sp_ins(entry.tx)[i].commit != #[trigger] sp_outs(*tx)[j].commit,
+//@   loop 3:
+//@+    invariant
+//@+        inputs@ == sp_ins(entry.tx), entry.tx != *tx, *entry == self.entries@[it1.index@ as int], 0 <= it1.index@ < self.entries@.len(),
+//@+        *input == inputs@[it2.index@ as int], 0 <= it2.index@ < inputs@.len(),
+//@+        forall|j: int| 0 <= j < it3.index@ ==> input.commit != (#[trigger] sp_outs(*tx)[j]).commit,
 //@ end
 }
-//@ extract pool/src/pool.rs :: impl Pool::evict_transaction
-//@   eclosure 1 lifted_as `fn keep_entry(x: &PoolEntry, evictable_transaction: &Transaction) -> bool`
-//@   ensures:
-//@+    r == (x.tx != *evictable_transaction),
-//@ end
 //@ canary evict_transaction: false
